@@ -1,5 +1,8 @@
 """C08 — re-encoding a decoded message is stable."""
-from .. import gen, impl
+import enum
+from fractions import Fraction
+
+from .. import common, gen, impl
 
 
 def boundaries(cls):
@@ -23,6 +26,79 @@ def zero_padding(cname, bits):
                 for i in range(end - n % 6, end):
                     b[i] = '0'
     return ''.join(b)
+
+
+def _rhe(fr):
+    import math
+    f = math.floor(fr)
+    d = fr - f
+    if d > Fraction(1, 2) or (d == Fraction(1, 2) and f % 2 == 1):
+        return f + 1
+    return f
+
+
+def rot_fixed_point(r):
+    """ITU rate of turn (exact arithmetic): is the signed raw value r a fixed point of
+    from_turn . to_turn?"""
+    if r == 0 or abs(r) in (127, 128):
+        return True
+    v = _rhe(Fraction(r * r * 10 ** 6, 4733 * 4733))
+    n = 0
+    while (2 * n + 1) ** 2 * 10 ** 6 <= 4 * 4733 ** 2 * v:
+        n += 1
+    return n == abs(r)
+
+
+def text_canonical(slice_bits, varlen):
+    """six-bit text on the wire that decoding does not normalise: nothing but `@` after the first
+    `@`, no outer blanks; a variable-length text has no `@` at all (it is re-encoded unpadded)"""
+    n = len(slice_bits) // 6
+    chars = [int(slice_bits[6 * i:6 * i + 6], 2) for i in range(n)]
+    if 0 in chars:
+        k = chars.index(0)
+        if varlen or any(c != 0 for c in chars[k:]):
+            return False
+        chars = chars[:k]
+    if varlen and not chars:
+        return False
+    return not chars or (chars[0] != 32 and chars[-1] != 32)
+
+
+def exactness(cname, bits):
+    """(in_quantifier, exact, why): is the payload inside the bit-exactness claim of the property
+    (length on a field boundary, or a whole number of octets/characters of a variable-length tail)
+    and is no present field normalised by decoding?  Written from the property / the standard, not
+    from the encoder."""
+    cls = gen.concrete_classes()[cname]
+    L = len(bits)
+    fo = gen.field_offsets(cls)
+    on_boundary = L in boundaries(cls)
+    name, off, w, d_type, signed, varlen = fo[-1]
+    if not on_boundary:
+        if not (varlen and off < L <= off + w):
+            return False, False, 'not-on-boundary'
+        unit = 6 if d_type is str else 8
+        if (L - off) % unit:
+            return False, False, 'ragged-tail'
+    for (name, off, w, d_type, signed, varlen), f in zip(fo, [x[5] for x in gen.fields_of(cls)]):
+        if off >= L:
+            break
+        sl = bits[off:min(L, off + w)]
+        conv = f.metadata['to_converter'] or f.converter
+        ecls = gen.enum_members(conv) if conv is not None else None
+        if name == 'turn':
+            v = int(sl, 2)
+            if v >= 128:
+                v -= 256
+            if not rot_fixed_point(v):
+                return True, False, 'turn-normalised'
+        elif ecls is not None and isinstance(ecls, type) and issubclass(ecls, enum.Enum):
+            if int(sl, 2) not in {int(m.value) for m in ecls}:
+                return True, False, 'enum-fallback'
+        elif d_type is str:
+            if not text_canonical(sl, varlen):
+                return True, False, 'text-normalised'
+    return True, True, ''
 
 
 def parse_fields(canon):
@@ -91,6 +167,17 @@ class Prop:
                           for (k, a), (_, b) in zip(f1, f2) if a != b}) if f2 else ['*']
             ctx.fail('decode -> encode -> decode is not the identity on the decoded message', inp,
                      m1[:200], m2[:200], dict(sig, kind='not-idempotent', fields=diff[:4], how=how))
+            return
+        inq, exact, why = exactness(cname, bits)
+        ctx.count('exactness:' + ('exact' if exact else why))
+        if inq and exact and b2 != bits:
+            cls = gen.concrete_classes()[cname]
+            lname, loff, lw, ld, _, lvar = gen.field_offsets(cls)[-1]
+            how = ('ragged-text-width-padding-dropped' if (ld is str and lw % 6 and len(bits) == loff + lw
+                                                           and b2 == bits[:len(b2)] and len(bits) - len(b2) == lw % 6)
+                   else 'bits-differ')
+            ctx.fail('no field was normalised, yet the re-encoded payload is not bit for bit the received one', inp,
+                     bits, b2, dict(sig, kind='not-bit-exact', how=how))
 
     def run(self, ctx):
         cs = self.cases(ctx)
